@@ -26,6 +26,8 @@ type SpecEnv struct {
 	bound    map[string]string // quantifier-bound variables -> term
 	fnScope  *ssa.Function     // function whose locals may be named
 	noLocals bool
+	inOld    bool
+	callee   bool // environment of a callee's contract at a call site: names are the callee's parameters only
 	anchor   *quantAnchor
 }
 
@@ -183,6 +185,18 @@ func (env *SpecEnv) pkgHas(path, name string) bool {
 func (env *SpecEnv) lookupVar(name string) (Val, bool) {
 	if t, ok := env.bound[name]; ok {
 		return vInt(t), true
+	}
+	if env.inOld && env.in != nil && !env.callee {
+		// inside old(): a name that is both a loop variable and a parameter denotes the parameter's entry value
+		for _, p := range env.in.fn.Params {
+			if p.Name() == name {
+				v := env.in.vals[p]
+				if v.Ty == nil {
+					v.Ty = p.Type()
+				}
+				return v, true
+			}
+		}
 	}
 	if v, ok := env.vars[name]; ok {
 		return v, true
@@ -517,7 +531,75 @@ func (env *SpecEnv) call(n *ast.CallExpr) Val {
 		need(1)
 		sub := env.fork()
 		sub.st = env.old
+		sub.inOld = true
 		return sub.eval(n.Args[0])
+	case "extends":
+		// extends(r, d): r has d (as it was in the old state) as a prefix, in place or in a fresh array
+		need(2)
+		r := arg(0)
+		sub := env.fork()
+		sub.st = env.old
+		sub.inOld = true
+		d := sub.eval(n.Args[1])
+		mNow, mOld := sSel(env.st.get("Mem"), slcArr(r.T)), sSel(env.old.get("Mem"), slcArr(d.T))
+		j := sym(e.fresh("q"))
+		pre := fmt.Sprintf("(forall ((%s Int)) (! (=> (and (<= %s %s) (< %s %s)) (= (select %s %s) (select %s %s))) :pattern ((select %s %s))))",
+			j, slcOff(r.T), j, j, sAdd(slcOff(r.T), slcLen(d.T)), mNow, j, mOld, sAdd(sSub(j, slcOff(r.T)), slcOff(d.T)), mNow, j)
+		return vBool(sAnd(sApp(">=", slcLen(r.T), slcLen(d.T)),
+			sOr(sAnd(sEq(slcArr(r.T), slcArr(d.T)), sEq(slcOff(r.T), slcOff(d.T)), sEq(slcCap(r.T), slcCap(d.T))),
+				sAnd(sApp(">=", slcArr(r.T), env.old.get("alloc")), sEq(slcOff(r.T), "0"))),
+			pre))
+	case "spareOnly":
+		// spareOnly(d): the array of d (old state) changed at most inside d's spare capacity
+		need(1)
+		sub := env.fork()
+		sub.st = env.old
+		sub.inOld = true
+		d := sub.eval(n.Args[0])
+		mNow, mOld := sSel(env.st.get("Mem"), slcArr(d.T)), sSel(env.old.get("Mem"), slcArr(d.T))
+		j := sym(e.fresh("q"))
+		lo, hi := sAdd(slcOff(d.T), slcLen(d.T)), sAdd(slcOff(d.T), slcCap(d.T))
+		return vBool(fmt.Sprintf("(forall ((%s Int)) (! (=> (not (and (<= %s %s) (< %s %s))) (= (select %s %s) (select %s %s))) :pattern ((select %s %s))))",
+			j, lo, j, j, hi, mNow, j, mOld, j, mNow, j))
+	case "capOnly":
+		// capOnly(d): the array of d (old state) changed at most inside d's capacity window
+		need(1)
+		sub := env.fork()
+		sub.st = env.old
+		sub.inOld = true
+		d := sub.eval(n.Args[0])
+		mNow, mOld := sSel(env.st.get("Mem"), slcArr(d.T)), sSel(env.old.get("Mem"), slcArr(d.T))
+		j := sym(e.fresh("q"))
+		lo, hi := slcOff(d.T), sAdd(slcOff(d.T), slcCap(d.T))
+		return vBool(fmt.Sprintf("(forall ((%s Int)) (! (=> (not (and (<= %s %s) (< %s %s))) (= (select %s %s) (select %s %s))) :pattern ((select %s %s))))",
+			j, lo, j, j, hi, mNow, j, mOld, j, mNow, j))
+	case "within":
+		// within(b, d): b lies inside d's capacity window (d evaluated in the old state) or in a fresh array
+		need(2)
+		b := arg(0)
+		sub := env.fork()
+		sub.st = env.old
+		sub.inOld = true
+		d := sub.eval(n.Args[1])
+		return vBool(sOr(sApp(">=", slcArr(b.T), env.old.get("alloc")),
+			sAnd(sEq(slcArr(b.T), slcArr(d.T)), sApp("<=", slcOff(d.T), slcOff(b.T)), sApp("<=", sAdd(slcOff(b.T), slcCap(b.T)), sAdd(slcOff(d.T), slcCap(d.T))))))
+	case "matchAt":
+		// matchAt(s, k, p): p occurs in s at position k (bounds are the caller's business)
+		need(3)
+		sv, kv, pv := arg(0), arg(1), arg(2)
+		m := sSel(env.st.get("Mem"), slcArr(sv.T))
+		if content, ok := e.constContent(pv.T); ok {
+			var cs []string
+			for i := 0; i < len(content); i++ {
+				cs = append(cs, sEq(sSel(m, sAdd(sAdd(slcOff(sv.T), kv.T), fmt.Sprint(i))), fmt.Sprint(content[i])))
+			}
+			return vBool(sAnd(cs...))
+		}
+		mp := sSel(env.st.get("Mem"), slcArr(pv.T))
+		j := sym(e.fresh("q"))
+		base := sAdd(slcOff(sv.T), kv.T)
+		return vBool(fmt.Sprintf("(forall ((%s Int)) (! (=> (and (<= %s %s) (< %s %s)) (= (select %s %s) (select %s %s))) :pattern ((select %s %s))))",
+			j, base, j, j, sAdd(base, slcLen(pv.T)), m, j, mp, sAdd(sSub(j, base), slcOff(pv.T)), m, j))
 	case "unchanged":
 		need(1)
 		sub := env.fork()
@@ -675,6 +757,12 @@ func (env *SpecEnv) quant(isForall bool, n *ast.CallExpr) Val {
 			}
 		case *ast.CallExpr:
 			if fid, ok := ie.Fun.(*ast.Ident); ok {
+				if fid.Name == "matchAt" && len(ie.Args) == 3 && !mentions(ie.Args[0], k) {
+					if ok, c, ng := shape(ie.Args[1]); ok {
+						anchorX, anchorC, neg = ie.Args[0], c, ng
+						return false
+					}
+				}
 				if sf, ok := env.e.W.specFuncs[fid.Name]; ok && len(sf.Params) == len(ie.Args) {
 					for pi, p := range sf.Params {
 						if p.Type != "pos" {
@@ -889,27 +977,46 @@ func (in *Inst) resolveLocal(name string, at *ssa.BasicBlock, atIdx int, st *Sta
 
 func (w *World) specPrelude() string { return w.specSMT }
 
-// specPreludeFor: with dropQuant the defining axioms of recursive spec functions are omitted.
-func (w *World) specPreludeFor(dropQuant bool) string {
-	if !dropQuant {
-		return w.specSMT
+// specPreludeFor: definitions of the spec functions the query mentions (transitively).
+// With dropQuant the defining axioms of recursive spec functions are omitted.
+func (w *World) specPreludeFor(body string, dropQuant bool) string {
+	need := map[string]bool{}
+	var visit func(text string)
+	visit = func(text string) {
+		for _, name := range w.specOrder {
+			if need[name] {
+				continue
+			}
+			if strings.Contains(text, sym("sf:"+name)) {
+				need[name] = true
+				visit(w.specDefs[name])
+			}
+		}
 	}
+	visit(body)
 	var b strings.Builder
-	for _, l := range strings.Split(w.specSMT, "\n") {
-		if strings.HasPrefix(l, "(assert ") && hasQuantifier(l) {
+	for _, name := range w.specOrder {
+		if !need[name] {
 			continue
 		}
-		b.WriteString(l)
-		b.WriteByte('\n')
+		for _, l := range strings.Split(w.specDefs[name], "\n") {
+			if l == "" || (dropQuant && strings.HasPrefix(l, "(assert ") && hasQuantifier(l)) {
+				continue
+			}
+			b.WriteString(l)
+			b.WriteByte('\n')
+		}
 	}
 	return b.String()
 }
 
 func (w *World) compileSpecFuncs() error {
-	var b strings.Builder
+	var all strings.Builder
 	var firstErr error
+	w.specDefs = map[string]string{}
 	for _, name := range w.specOrder {
 		sf := w.specFuncs[name]
+		var b strings.Builder
 		func() {
 			defer func() {
 				if r := recover(); r != nil {
@@ -966,8 +1073,10 @@ func (w *World) compileSpecFuncs() error {
 				fmt.Fprintf(&b, "(assert (forall (%s) (! (= %s %s) :pattern (%s))))\n", strings.Join(params, " "), app, body, app)
 			}
 		}()
+		w.specDefs[name] = b.String()
+		all.WriteString(b.String())
 	}
-	w.specSMT = b.String()
+	w.specSMT = all.String()
 	return firstErr
 }
 
